@@ -13,7 +13,7 @@ usage: run.py [-k substring] [-p PROP] [--tier quick|thorough] [--no-suite] [--p
 """
 import argparse, json, os, shutil, subprocess, sys, time
 
-ROOT = '/verif'
+ROOT = os.path.dirname(os.path.dirname(os.path.abspath(__file__)))  # normally /verif; a snapshot runs its own harness
 REPO = '/repo'
 WORK = os.path.join(ROOT, '.work', 'selftest.%d' % os.getpid())
 ENV = dict(os.environ, GOFLAGS='-mod=mod', GOPROXY='off', GOSUMDB='off', GOTOOLCHAIN='local')
